@@ -106,6 +106,47 @@ def value_scenario(i, tagged):
             "ops": [["deploy", 0], ["start", "mv", {"pid": "p1"}], ["runall"]]}
 
 
+def gen_scalar(rng):
+    k = rng.below(5)
+    if k == 0:
+        return ["int", rng.pick(INTS)]
+    if k == 1:
+        return ["str", rng.pick(STRS)]
+    if k == 2:
+        return ["bool", rng.chance(1, 2)]
+    if k == 3:
+        return ["fo", rng.below(len(FLOATS))]
+    return ["int", rng.range(-50, 50)]
+
+
+def uservar_scenario(i, rng):
+    """a client-registered user variable with default data: what the process holds under that name is what scripts and templates see,
+    completed (never replaced) by the defaults"""
+    keys = rng.shuffle(["limit", "region", "retries", "mode", "k1"])
+    dkeys = sorted(keys[: 1 + rng.below(4)])
+    defaults = {k: gen_scalar(rng) for k in dkeys}
+    own = {}
+    for k in keys:
+        if rng.chance(1, 2):
+            own[k] = gen_scalar(rng)
+    if rng.chance(1, 6):
+        own = None
+    merged = dict(defaults)
+    merged.update(own or {})
+    probe = rng.pick(sorted(merged))
+    w = {"id": "uv", "inputs": {"seen": None, "one": None}, "outputs": {"seen": None, "one": None},
+         "steps": [{"id": "s1", "acts": [
+             {"id": "a1", "uses": gen.CODE, "params": "$set('seen', settings);"},
+             {"id": "a2", "uses": gen.SET, "params": {"one": "{{ settings.%s }}" % probe}},
+         ]}]}
+    start = {"pid": "p1"}
+    if own is not None:
+        start["settings"] = {k: to_plain(v) for k, v in own.items()}
+    sc = {"id": f"uv-{i}", "config": {"keep": True, "user_vars": {"settings": {k: to_plain(v) for k, v in defaults.items()}}}, "models": [w],
+          "ops": [["deploy", 0], ["start", "uv", start], ["runall"]]}
+    return sc, {"defaults": defaults, "own": own, "merged": merged, "probe": probe}
+
+
 VARS = {"x": ["int", 3], "big": ["int", 3000000000], "s": ["str", "str val"], "b": ["bool", True], "n": ["null"], "neg": ["int", -7]}
 LITS = ["", " ", "abc", " and ", "-", ": ", "ü ", "a b c", "0", "x"]
 
@@ -193,6 +234,42 @@ def run(ctx):
                     ctx.violation("C14|seen-in-script", f"script saw {seen[:80]} for {json.dumps(to_plain(t))[:80]}", {"scenario": sc})
             except Exception:
                 pass
+    # ---- a registered user variable with defaults: the process's own values are the ones scripts see
+    nu = 40 if ctx.tier == "quick" else 800
+    upairs = [uservar_scenario(i, rng.fork("u%d" % i)) for i in range(nu)]
+    ures = ctx.harness("run", [p[0] for p in upairs], tag="u")
+    stats["user_var_cases"] = nu
+    stats["user_var_overrides"] = 0
+    for (sc, info), res in zip(upairs, ures):
+        ctx.cov["evaluations"] += 1
+        if res.get("panic") or res.get("crashed"):
+            ctx.violation("C14|engine-panic", "engine panicked", {"scenario": sc, "panic": res.get("panic")})
+            continue
+        outs = None
+        for _, o in obs_of(res, {"pev"}):
+            if o.get("ev") == "complete" and o.get("chan") == "default":
+                outs = o.get("outputs")
+        if outs is None:
+            errs = [o for _, o in obs_of(res, {"pev"}) if o.get("ev") == "error"]
+            ctx.violation("C14|no-complete-event", "the user-variable workflow did not complete", {"scenario": sc, "error": errs[:1]})
+            continue
+        shadowed = [k for k in (info["own"] or {}) if k in info["defaults"] and info["own"][k] != info["defaults"][k]]
+        if shadowed:
+            stats["user_var_overrides"] += 1
+            ctx.nontrivial(json.dumps(sc["config"]["user_vars"], sort_keys=True) + json.dumps(sc["ops"][1][2], sort_keys=True))
+        want = ["obj", [[k, info["merged"][k]] for k in sorted(info["merged"])]]
+        got = to_tagged(outs.get("seen")) if isinstance(outs.get("seen"), dict) else ["other", outs.get("seen")]
+        if not same_value(got, want):
+            which = "own-value-replaced-by-default" if any(
+                isinstance(outs.get("seen"), dict) and not same_value(to_tagged(outs["seen"].get(k)), info["own"][k]) for k in shadowed) else "other"
+            ctx.violation(f"C14|user-var|script|{which}",
+                          f"script sees settings = {json.dumps(outs.get('seen'))[:120]}, the process holds {json.dumps(sc['ops'][1][2].get('settings'))[:100]} "
+                          f"over defaults {json.dumps(sc['config']['user_vars']['settings'])[:100]}", {"scenario": sc, "seen": outs.get("seen")})
+            continue
+        one = to_tagged(outs.get("one"))
+        if not same_value(one, info["merged"][info["probe"]]):
+            ctx.violation("C14|user-var|template", f"template settings.{info['probe']} gave {json.dumps(outs.get('one'))[:80]}, "
+                          f"expected {json.dumps(to_plain(info['merged'][info['probe']]))[:80]}", {"scenario": sc, "one": outs.get("one")})
     # ---- templates through msg-act params
     tsc, tstrs = [], []
     for i in range(nt):
